@@ -467,6 +467,7 @@ def crystal_case(ck, rng, label, crys, ex, heavy=False):
     res["basis_terms"] = []
     seen = {}
     first_site, first_fvb = {}, {}
+    snap0 = sg.state_snapshot(crys)
     for c, lst in enumerate(ex.pos):
         for i in range(len(lst)):
             pg = list(crys.pointG[c][i])
@@ -586,6 +587,8 @@ def crystal_case(ck, rng, label, crys, ex, heavy=False):
         except Exception as e:
             res["notes"] = "fresh crystal: %s: %s" % (type(e).__name__, str(e)[:80])
         res["history_checked"] = True
+    sd = sg.state_diff(snap0, sg.state_snapshot(crys))
+    if sd: res["problems"].append(("c20-crystal-state-changed", "the site-symmetry / jump-network / calculator calls changed the Crystal object: attributes %s" % sd))
     # ---- addbasis with a full orbit keeps the group ------------------------------------------------
     res["addbasis"] = 0
     for u, lst in probes[:2]:
@@ -597,9 +600,81 @@ def crystal_case(ck, rng, label, crys, ex, heavy=False):
         except Exception as e:
             res["problems"].append(("c20-addbasis-exception", "addbasis(Wyckoffpos(%s)): %s: %s" % (u.tolist(), type(e).__name__, e))); continue
         res["addbasis"] += 1
-        r1 = sorted(g.rot.tolist() for g in crys.G); r2 = sorted(g.rot.tolist() for g in c2.G)
-        if r1 != r2 or c2.N != crys.N + len(lst):
-            res["problems"].append(("c20-addbasis-symmetry-changed", "addbasis(Wyckoffpos(%s)): |G| %d -> %d, atoms %d -> %d" % (u.tolist(), len(r1), len(r2), crys.N, c2.N)))
+        for key, msg in judge_addbasis(crys, c2, lst):
+            res["problems"].append((key, "addbasis(Wyckoffpos(%s)): %s" % (u.tolist(), msg)))
+    return res
+
+
+def judge_addbasis(crys, c2, lst):
+    """adding the full orbit `lst` as a new species must keep the threshold, the group, the site point groups of the old sites,
+    and the added atoms must form exactly ONE Wyckoff set"""
+    bad = []
+    if c2.threshold != crys.threshold:
+        bad.append(("c20-addbasis-threshold-lost", "threshold %g of the crystal became %g in the new crystal" % (crys.threshold, c2.threshold)))
+    r1 = sorted(g.rot.tolist() for g in crys.G); r2 = sorted(g.rot.tolist() for g in c2.G)
+    if r1 != r2 or c2.N != crys.N + len(lst):
+        bad.append(("c20-addbasis-symmetry-changed", "|G| %d -> %d, atoms %d -> %d" % (len(r1), len(r2), crys.N, c2.N)))
+        return bad
+    newc = c2.Nchem - 1
+    nsets = sum(1 for W in c2.Wyckoff if next(iter(W))[0] == newc)
+    if nsets != 1:
+        bad.append(("c20-addbasis-orbit-split", "the added orbit of %d sites forms %d Wyckoff sets instead of one" % (len(lst), nsets)))
+    for c, atoms in enumerate(crys.basis):
+        for i in range(len(atoms)):
+            p1 = sorted(g.rot.tolist() for g in crys.pointG[c][i]); p2 = sorted(g.rot.tolist() for g in c2.pointG[c][i])
+            if p1 != p2:
+                bad.append(("c20-addbasis-pointgroup-changed", "point group of old site (%d,%d): %d -> %d operations" % (c, i, len(p1), len(p2)))); return bad
+    return bad
+
+
+def noisy_case(ck, rng, label, ideal, thr, amp, maxorbit=16, maxadd=1):
+    """a crystal with coordinate noise `amp` built with the loosened threshold `thr`: Wyckoffpos must return the complete
+    orbit without duplicates (positions equal within the threshold modulo lattice vectors count as one), and adding it
+    keeps threshold, group, point groups, one Wyckoff set"""
+    from onsager import crystal
+    dim = ideal.dim
+    res = dict(label=label, crys=repr(ideal), thr=thr, amp=amp, problems=[], probes=0, addbasis=0)
+    basis = [[u + amp * np.array([rng.uniform(-1, 1) for _ in range(dim)]) for u in lst] for lst in ideal.basis]
+    try:
+        noisy = crystal.Crystal(ideal.lattice, basis, threshold=thr)
+    except Exception as e:
+        res["skip"] = "constructor: %s" % type(e).__name__; return res
+    if len(noisy.G) != len(ideal.G) or noisy.N != ideal.N or not np.allclose(noisy.lattice, ideal.lattice):
+        res["skip"] = "noise changed the detected symmetry"; return res
+    res["noisy"] = repr(noisy)
+    grid = [0.0, 0.0, 0.5, 0.25, 1 / 3, 1 / 12, 5 / 12, 0.3, 0.2, 0.1]
+    snap0 = sg.state_snapshot(noisy)
+    for _ in range(5):
+        u = np.array([rng.choice(grid) for _ in range(dim)])
+        try:
+            lst = noisy.Wyckoffpos(u); want = ideal.Wyckoffpos(u)
+        except Exception as e:
+            res["problems"].append(("c20-wyckoffpos-exception", "%s: %s" % (type(e).__name__, e))); continue
+        res["probes"] += 1
+        tol = 3 * thr
+        dup = [(i, j) for i in range(len(lst)) for j in range(i) if np.abs(crystal.inhalf(lst[i] - lst[j])).max() < tol]
+        if dup:
+            i, j = dup[0]
+            res["problems"].append(("c20-wyckoffpos-duplicate-periodic-image", "Wyckoffpos(%s) on the noisy crystal (threshold %g, noise %g) lists %d positions, "
+                                    "%d pairs coincide modulo a lattice vector, e.g. %s and %s (the ideal orbit has %d)" %
+                                    (u.tolist(), thr, amp, len(lst), len(dup), np.round(lst[j], 6).tolist(), np.round(lst[i], 6).tolist(), len(want))))
+            continue
+        miss = [w for w in want if not any(np.abs(crystal.inhalf(w - v)).max() < tol + 10 * amp for v in lst)]
+        if len(lst) != len(want) or miss:
+            res["problems"].append(("c20-wyckoffpos-not-orbit", "Wyckoffpos(%s) on the noisy crystal returns %d positions, the orbit has %d (%d not matched)" %
+                                    (u.tolist(), len(lst), len(want), len(miss)))); continue
+        far = all(np.linalg.norm(noisy.lattice @ crystal.inhalf(v - w)) > 0.2 * abs(np.linalg.det(noisy.lattice)) ** (1. / dim)
+                  for v in lst for at in noisy.basis for w in at)
+        if not far or res["addbasis"] >= maxadd or len(lst) > maxorbit: continue
+        try:
+            c2 = noisy.addbasis(lst)
+        except Exception as e:
+            res["problems"].append(("c20-addbasis-exception", "addbasis(Wyckoffpos(%s)): %s: %s" % (u.tolist(), type(e).__name__, e))); continue
+        res["addbasis"] += 1
+        for key, msg in judge_addbasis(noisy, c2, lst):
+            res["problems"].append((key, "noisy crystal (threshold %g, noise %g), addbasis(Wyckoffpos(%s)): %s" % (thr, amp, u.tolist(), msg)))
+    d = sg.state_diff(snap0, sg.state_snapshot(noisy))
+    if d: res["problems"].append(("c20-crystal-state-changed", "Wyckoffpos/addbasis changed the Crystal object: attributes %s" % d))
     return res
 
 
@@ -662,6 +737,28 @@ def run(ck):
                 cases.append(crystal_case(ck, rng, r[0], r[1], r[2], heavy=not ck.quick)); nrotc += 1; continue
         cases.append(crystal_case(ck, rng, label, crys, ex, heavy=not ck.quick))
     ck.extra["rotated_crystals"] = nrotc
+    # noisy coordinates with a loosened threshold
+    from . import gen
+    noisy = []
+    rutile = _crystal.Crystal(np.diag([1., 1., 0.65]), [[np.array([0., 0, 0]), np.array([.5, .5, .5])],
+                                                      [np.array([.3, .3, 0]), np.array([.7, .7, 0]), np.array([.2, .8, .5]), np.array([.8, .2, .5])]])
+    srcs = [("hcp", gen.named("hcp")[0]), ("rutile", rutile), ("honeycomb", gen.named("honeycomb")[0]), ("fcc", gen.named("fcc")[0]),
+            ("b2", gen.named("b2")[0]), ("sq2w", gen.named("sq2w")[0]), ("diamond", gen.named("diamond")[0]), ("tria", gen.named("tria")[0])]
+    rng.shuffle(srcs)
+    for label, crys, chem, ex in sg.pool(rng, ck.n(4, 30), random_frac=1.0, nchem_max=2, maxatoms=2):
+        srcs.append((label, crys))
+    for label, crys in srcs[:ck.n(10, 38)]:
+        thr, amp = rng.choice([(1e-4, 1e-5), (1e-4, 1e-5), (1e-3, 1e-4), (1e-5, 1e-6)])
+        noisy.append(noisy_case(ck, rng, "noisy-" + label, crys, thr, amp, maxorbit=ck.n(16, 24), maxadd=ck.n(1, 2)))
+    for c in noisy:
+        if "skip" in c: continue
+        ck.case(key=("noisy", c["noisy"], c["thr"]), nontrivial=c["probes"] > 0, kind="noisy-crystal",
+                sample={"ideal": c["crys"], "threshold": c["thr"], "noise": c["amp"], "wyckoffpos_probes": c["probes"], "addbasis_checked": c["addbasis"]})
+        for key, msg in c["problems"]:
+            ck.violation("%s: %s" % (c["label"], msg), {"ideal_crystal": c["crys"], "noisy_crystal": c["noisy"], "threshold": c["thr"], "noise": c["amp"]}, key=key)
+    ck.extra["noisy_crystals"] = sum(1 for c in noisy if "skip" not in c)
+    ck.extra["noisy_skipped_symmetry_not_detected"] = sum(1 for c in noisy if "skip" in c)
+    ck.extra["noisy_addbasis_cases"] = sum(c.get("addbasis", 0) for c in noisy)
     ck.extra["skipped_rotated_constructor_failed"] = len(rot_failed)
     try:
         scodes = run_terms(ck, "sites", [c["site_term"] for c in cases], fn="check_sites", chunk=12, imports=SITE_IMPORTS)
